@@ -52,6 +52,41 @@ func vt(src, name string, params ...sx.Sexp) sx.Sexp {
 	return sx.T("t", append([]sx.Sexp{sx.Str(src), sx.Str(name)}, params...)...)
 }
 
+// a type alias used as a value
+func vl(src, name string, resolved sx.Sexp) sx.Sexp { return sx.T("l", sx.Str(src), sx.Str(name), resolved) }
+
+// an object type used as a value: its name ("" = anonymous) and, for an anonymous one, the entries of its init hash
+func vq(src, name string, kv ...sx.Sexp) sx.Sexp {
+	xs := []sx.Sexp{sx.Str(src), sx.Str(name)}
+	for i := 0; i+1 < len(kv); i += 2 {
+		xs = append(xs, sx.L(sx.Str(kv[i].Args()[0].MustStr()), kv[i+1]))
+	}
+	return sx.T("q", xs...)
+}
+
+// aliases and object types as values (TypeAliasType.ToString, objectType.ToString / basicTypeToString)
+func aliasObjTypePool() []sx.Sexp {
+	tInt, tStr := vt("Integer", "Integer"), vt("String", "String")
+	pair := vq("Verif::Pair", "Verif::Pair")
+	return []sx.Sexp{
+		vl("Verif::Ints", "Verif::Ints", vt("Array[Integer]", "Array")), vl("Data", "Data", vt("Variant", "Variant")),
+		vl("RichData", "RichData", vt("Variant", "Variant")), pair, vq("Object", "Object"),
+		vq("Object[{attributes => {'a' => Integer}}]", "", vs("attributes"), vh(vs("a"), tInt)),
+		vq("Object[{attributes => {'a' => Integer, 'b' => {'type' => String, 'value' => 'x'}}, functions => {'f' => Callable[Integer]}}]", "",
+			vs("attributes"), vh(vs("a"), tInt, vs("b"), vh(vs("type"), tStr, vs("value"), vs("x"))),
+			vs("functions"), vh(vs("f"), vt("Callable[Integer]", "Callable", tInt))),
+		vq("Object[{parent => Verif::Pair, attributes => {'c' => Integer}, equality => ['c']}]", "",
+			vs("parent"), pair, vs("attributes"), vh(vs("c"), tInt), vs("equality"), va(vs("c"))),
+		vq("Object[{attributes => {'n' => {'type' => Array[String], 'value' => ['a']}}, constants => {'k' => 3}, equality_include_type => false}]", "",
+			vs("attributes"), vh(vs("n"), vh(vs("type"), vt("Array[String]", "Array", tStr), vs("value"), va(vs("a")))),
+			vs("constants"), vh(vs("k"), vi(3)), vs("equality_include_type"), vb(false)),
+		vq("Object[{type_parameters => {'p' => Integer}, attributes => {'a' => Integer}}]", "",
+			vs("type_parameters"), vh(vs("p"), tInt), vs("attributes"), vh(vs("a"), tInt)),
+		vq("Object[{attributes => {'o' => Object[{attributes => {'i' => Integer}}]}}]", "",
+			vs("attributes"), vh(vs("o"), vq("Object[{attributes => {'i' => Integer}}]", "", vs("attributes"), vh(vs("i"), tInt)))),
+	}
+}
+
 // an instance of an object type of the catalogue with its init hash
 func vo(name string, kv ...sx.Sexp) sx.Sexp {
 	xs := []sx.Sexp{sx.Str(name)}
@@ -120,7 +155,7 @@ func newScalarPool() []sx.Sexp {
 	for _, m := range stampPool {
 		out = append(out, vm(m[0], m[1]))
 	}
-	return append(out, typePool()...)
+	return append(append(out, typePool()...), aliasObjTypePool()...)
 }
 
 func newContainerPool() []sx.Sexp {
@@ -437,7 +472,8 @@ func emitFmt(g *core.G, ctx sx.Sexp, v sx.Sexp) {
 		in = modelled(v, []entry{{key: k, n: n}}, false)
 	case "self":
 		n := newNode(ctx.Args()[0].MustStr())
-		in = modelled(v, []entry{{key: "self", n: n}}, false)
+		// an alias or an object type under its own type as the key: which nested types that key accepts is a lattice question
+		in = modelled(v, []entry{{key: "self", n: n}}, false) && v.Tag() != "l" && v.Tag() != "q"
 	case "map":
 		in = mapValid(ctx) && modelled(v, entriesOfNoType(ctx.Args()), false)
 	case "mmap":
@@ -522,7 +558,7 @@ func mapValid(ctx sx.Sexp) bool { return !anyInvalid(entriesOfNoType(ctx.Args())
 // latValue: only kinds the lattice model has values of (no Float: its digits are fmt's)
 func latValue(e sx.Sexp) bool {
 	switch e.Tag() {
-	case "f", "v", "w", "y", "m", "t", "o":
+	case "f", "v", "w", "y", "m", "t", "o", "l", "q":
 		return false
 	case "z":
 		return latValue(e.Args()[0])
@@ -1140,7 +1176,7 @@ func genX(g *core.G) {
 	conts := newContainerPool()
 	tp := typePool()
 	small := []sx.Sexp{vv("1.2.3-rc1+b5"), vw("1.x", ">=1.0.0 <2.0.0"), vy("http://example.com:8080/a%20b?x=1#f"), vn(90061500000000), vm(1500000000, 123456789),
-		vz(vs("s")), tp[0], tp[1], tp[19], tp[42], vo("Verif::Unit"), vo("Verif::Pair", vs("a"), vi(1), vs("b"), va(vv("1.0.0"))), conts[6]}
+		vz(vs("s")), tp[0], tp[1], tp[19], tp[42], aliasObjTypePool()[0], aliasObjTypePool()[3], aliasObjTypePool()[6], aliasObjTypePool()[7], vo("Verif::Unit"), vo("Verif::Pair", vs("a"), vi(1), vs("b"), va(vv("1.0.0"))), conts[6]}
 	if g.Thorough() {
 		small = append(append(small, pool...), conts...)
 	}
